@@ -11,7 +11,7 @@ Lemma md_ok : forall f, md_of_classes merge_classes f = tree_md f.
 Proof. intro f. destruct f; vm_compute; reflexivity. Qed.
 
 Lemma clone_ok :
-  clone_copied = tree_clone_copied
+  forallb (fun x => existsb (String.eqb x) clone_copied) tree_clone_copied = true
   /\ existsb (String.eqb "Selects") clone_shared = true
   /\ existsb (String.eqb "Omits") clone_shared = true
   /\ existsb (String.eqb "Clauses") clone_fresh_maps = true.
